@@ -38,6 +38,18 @@ def main():
             subs = sorted({l.split()[2].rstrip(":") for l in r.stdout.splitlines() if l.strip().startswith("violation in")})
             verdict = "KILLED" if r.returncode == 1 and viol else ("SURVIVED" if r.returncode == 0 else f"ERROR(rc={r.returncode})")
             print(f"{verdict} {os.path.basename(patch)} by {pid} {tier} in {time.time()-t0:.1f}s subs={subs}")
+            if verdict == "KILLED" and "--save-replay" in sys.argv:
+                name = sys.argv[sys.argv.index("--save-replay") + 1]
+                import glob, json
+                fdir = os.path.join(V, "failures", "_scratch", pid)
+                os.makedirs(os.path.join(V, "replays", pid), exist_ok=True)
+                for j, f in enumerate(sorted(glob.glob(os.path.join(fdir, "*.json")))):
+                    rec = json.load(open(f))
+                    rec["note"] = f"shrunk counterexample produced by {pid} {tier} against mutant {os.path.basename(patch)}"
+                    rec["message"] = rec["message"][:600]
+                    out = os.path.join(V, "replays", pid, f"{name}-{rec['sub']}.json")
+                    json.dump(rec, open(out, "w"), indent=1, sort_keys=True)
+                    print("  saved replay", os.path.relpath(out, V))
             if verdict != "KILLED":
                 rc_all = 1
                 if r.returncode not in (0, 1):
@@ -48,7 +60,8 @@ def main():
     finally:
         if "--keep" not in sys.argv:
             shutil.rmtree(dst, ignore_errors=True)
-            shutil.rmtree(os.path.join(V, "failures", "_scratch"), ignore_errors=True)
+            for pid in ids:
+                shutil.rmtree(os.path.join(V, "failures", "_scratch", pid), ignore_errors=True)
 
 if __name__ == "__main__":
     sys.exit(main())
